@@ -16,7 +16,7 @@ PROPS = {
         "strict_err": True,
     },
     "C13": {
-        "groups": ["writer"],
+        "groups": ["writerptr"],
         "design_ref": "§6 C12/C13",
         "technique": "Lean 4 proof: every pointer emission of the Writer model is logged (ghost state); theorems for all op sequences and modes on where pointers are emitted and on their targets; components table checked against RFC 3597 §4; pointer audit (strictly backwards, onto a label start of an earlier name, not in SRV/CH-A/unknown RDATA, none while Disabled) on the implementation's octets with the independent decoder for every generated session",
         "strict_err": True,
